@@ -224,6 +224,36 @@ def rule_regex_error_conversion(ctx, rep, rid_c: str, rid_m: str) -> None:
             cache[id(fn)] = any(x in loops for x in ctx.cg.reach([fn]))
         return cache[id(fn)]
 
+    def callers_convert(fn, depth: int):
+        """The class every caller of fn converts RegexStackOverflow into (None when some caller does not, or when
+        fn is also handed out as a value without a converting wrapper around it)."""
+        sites = [c for c in ctx.cg.sites if any(x is fn for x in c.targets) and not c.func.module.name.startswith("regex")]
+        if not sites or depth == 0:
+            return None
+        # the function may escape as a value only as the argument of a call that resolves its parameter to it
+        for g in ctx.tree.funcs:
+            if g.module is not fn.module:
+                continue
+            for nm in g.own_nodes():
+                if isinstance(nm, ast.Name) and isinstance(nm.ctx, ast.Load) and nm.id == fn.name and ctx.cg._lookup_name_func(nm.id, g) is fn and not ctx.cg._is_shadowed(nm.id, g, fn):
+                    par = getattr(nm, "_parent", None)
+                    if isinstance(par, ast.Call) and par.func is nm:
+                        continue  # a direct call: one of the sites
+                    if isinstance(par, ast.Call) and nm in par.args:
+                        pcs = ctx.cg.site_of_call.get(id(par))
+                        if pcs is not None and pcs.kind == "resolved" and pcs.targets and all(any(any(x is fn for x in c2.targets) for c2 in ctx.cg.sites_of.get(id(w), []) + [c3 for ch in w.children.values() for c3 in ctx.cg.sites_of.get(id(ch), [])]) for w in pcs.targets):
+                            continue  # handed to a wrapper whose body (or closure) calls it: that call is one of the sites
+                    return None
+        out = None
+        for c in sites:
+            r = conv_handler(c.call, c.func, "RegexStackOverflow")
+            if r is None:
+                r = callers_convert(c.func, depth - 1)
+            if r is None:
+                return None
+            out = r
+        return out
+
     for cs in ctx.cg.sites:
         f = cs.func
         if f.module.name.startswith("regex") or cs.kind not in ("resolved", "byname"):
@@ -236,6 +266,10 @@ def rule_regex_error_conversion(ctx, rep, rid_c: str, rid_m: str) -> None:
         key = f"{f.qual}:{short(cs.call, 50)}"
         loc = f"{f.module.rel}:{cs.line}"
         cls = conv_handler(cs.call, f, "RegexStackOverflow")
+        if cls is None:
+            # every caller of the enclosing function converts it (a wrapper that runs the native inside its
+            # own try/except: `"exec": self._regex_limits(exec_fn)`)
+            cls = callers_convert(f, 3)
         if cls is None:
             rep.bad(rid_m, key, f"{f.qual} runs the matcher without handling RegexStackOverflow: a pattern that exhausts the backtrack budget escapes eval as a host exception", loc)
         else:
@@ -754,3 +788,124 @@ def rule_split_separator_discipline(ctx, rep, rid: str) -> None:
         rep.ok(rid, key)
     else:
         rep.bad(rid, key, "split does not treat the empty subject separately: ''.split(/x*/) must be [] when the separator matches the empty string", f.loc)
+
+
+# ---- subject positions are never negative -----------------------------------------------------------------
+def _position_params(ctx, ci) -> Dict[str, Set[str]]:
+    """method name -> parameters that are positions in the subject: used to subscript a string parameter, or
+    passed on as such a parameter of another method of the class (fixpoint)."""
+    out: Dict[str, Set[str]] = {}
+    methods = {m.name: m for m in ci.all_methods if not isinstance(m.node, ast.Lambda)}
+    for name, m in methods.items():
+        ps = set(m.params()) - {"self"}
+        strs = {a.arg for a in m.node.args.args if a.annotation is not None and norm(a.annotation) == "str"}
+        pos = set()
+        for n in m.own_nodes():
+            if isinstance(n, ast.Subscript) and isinstance(n.value, ast.Name) and n.value.id in strs and isinstance(n.slice, ast.Name) and n.slice.id in ps:
+                pos.add(n.slice.id)
+        out[name] = pos
+    changed = True
+    while changed:
+        changed = False
+        for name, m in methods.items():
+            ps = set(m.params()) - {"self"}
+            for c in m.own_nodes():
+                if isinstance(c, ast.Call) and isinstance(c.func, ast.Attribute) and norm(c.func.value) == "self" and c.func.attr in methods:
+                    callee = methods[c.func.attr]
+                    cps = [a.arg for a in callee.node.args.args if a.arg != "self"]
+                    for i, a in enumerate(c.args):
+                        if i < len(cps) and cps[i] in out[c.func.attr] and isinstance(a, ast.Name) and a.id in ps and a.id not in out[name]:
+                            out[name].add(a.id)
+                            changed = True
+    return out
+
+
+def _nonneg(e: ast.AST, f: Func, assumed: Set[str], at: ast.AST, depth: int = 0) -> bool:
+    from ..util import atoms, known_conditions
+
+    if depth > 6:
+        return False
+    if isinstance(e, ast.Constant):
+        return isinstance(e.value, int) and e.value >= 0
+    if isinstance(e, ast.Call):
+        fn = norm(e.func)
+        if fn == "len":
+            return True
+        if fn == "max":
+            return any(_nonneg(a, f, assumed, at, depth + 1) for a in e.args)
+        if fn == "min":
+            return all(_nonneg(a, f, assumed, at, depth + 1) for a in e.args)
+        return False
+    if isinstance(e, ast.BinOp) and isinstance(e.op, (ast.Add, ast.Mult)):
+        return _nonneg(e.left, f, assumed, at, depth + 1) and _nonneg(e.right, f, assumed, at, depth + 1)
+    if isinstance(e, ast.IfExp):
+        return _nonneg(e.body, f, assumed, at, depth + 1) and _nonneg(e.orelse, f, assumed, at, depth + 1)
+    txt = norm(e).replace(" ", "")
+    ats = [(norm(a).replace(" ", ""), p) for t, pol in known_conditions(at, f.node) for a, p in atoms(t, pol)]
+    if any((a in (f"{txt}<0", f"0>{txt}") and not p) or (a in (f"{txt}>=0", f"0<={txt}", f"{txt}>0", f"0<{txt}") and p) for a, p in ats):
+        return True
+    if isinstance(e, ast.BinOp) and isinstance(e.op, ast.Sub):
+        l, r = norm(e.left).replace(" ", ""), norm(e.right).replace(" ", "")
+        if any((a in (f"{l}>={r}", f"{r}<={l}", f"{l}>{r}", f"{r}<{l}") and p) or (a in (f"{l}<{r}", f"{r}>{l}") and not p) for a, p in ats):
+            return True
+        return False
+    if isinstance(e, ast.Name):
+        if e.id in assumed:
+            # a position parameter of this method, changed only by additions
+            return all(not (isinstance(s, ast.AugAssign) and isinstance(s.target, ast.Name) and s.target.id == e.id and not isinstance(s.op, ast.Add)) for s in f.own_nodes())
+        # a loop variable
+        for s in f.own_nodes():
+            if isinstance(s, (ast.For, ast.comprehension)) and isinstance(s.target, ast.Name) and s.target.id == e.id and isinstance(s.iter, ast.Call) and norm(s.iter.func) == "range":
+                a = s.iter.args
+                if len(a) == 1:
+                    return True
+                step = a[2] if len(a) == 3 else None
+                if step is None or (isinstance(step, ast.Constant) and isinstance(step.value, int) and step.value > 0):
+                    return _nonneg(a[0], f, assumed, s, depth + 1)
+                # descending: the stop value is exclusive, so stop >= -1 keeps the variable >= 0
+                stop = a[1]
+                if isinstance(stop, ast.UnaryOp) and isinstance(stop.op, ast.USub) and isinstance(stop.operand, ast.Constant) and stop.operand.value == 1:
+                    return True
+                if isinstance(stop, ast.Constant) and isinstance(stop.value, int) and stop.value >= -1:
+                    return True
+                if isinstance(stop, ast.BinOp) and isinstance(stop.op, ast.Sub) and isinstance(stop.right, ast.Constant) and stop.right.value == 1:
+                    return _nonneg(stop.left, f, assumed, s, depth + 1)
+                return False
+        vals = [s for s in f.own_nodes() if isinstance(s, ast.Assign) and any(isinstance(t, ast.Name) and t.id == e.id for t in s.targets)]
+        if vals and not any(isinstance(s, ast.AugAssign) and isinstance(s.target, ast.Name) and s.target.id == e.id and not isinstance(s.op, ast.Add) for s in f.own_nodes()):
+            return all(_nonneg(s.value, f, assumed, s, depth + 1) for s in vals)
+        return False
+    return False
+
+
+def rule_positions_nonnegative(ctx, rep, rid: str) -> None:
+    """No matcher method is entered with a negative subject position: the instructions test `sp >= len(string)`
+    only, and the host reads string[-1] as the LAST character, so a negative start silently matches text that is
+    not there (a lookbehind that scans back past the start of the subject)."""
+    rep.rule(rid, "inside the regex matcher, every argument passed for a subject-position parameter (one that subscripts the subject, directly or further down) is provably non-negative: a constant, a position parameter that is only ever increased, a loop variable of a range that stops at or above 0, a value clamped with max(0, ..) or tested `< 0` before: the host would read a negative position from the end of the subject", floor=4)
+    mod = ctx.tree.mod("regex.vm")
+    n = 0
+    for ci in mod.classes.values():
+        pos = _position_params(ctx, ci)
+        methods = {m.name: m for m in ci.all_methods if not isinstance(m.node, ast.Lambda)}
+        for name, m in methods.items():
+            for c in m.own_nodes():
+                if not (isinstance(c, ast.Call) and isinstance(c.func, ast.Attribute) and norm(c.func.value) == "self" and c.func.attr in methods):
+                    continue
+                callee = methods[c.func.attr]
+                cps = [a.arg for a in callee.node.args.args if a.arg != "self"]
+                for i, a in enumerate(c.args):
+                    if i >= len(cps) or cps[i] not in pos[c.func.attr]:
+                        continue
+                    n += 1
+                    key = f"{m.qual}:{c.func.attr}({cps[i]}={norm(a)[:30]})"
+                    # positions, program counters and widths arrive as int parameters: non-negative on entry
+                    # (their own call sites are the obligations of this rule; the public entry points are called
+                    # with a clamped lastIndex, which the lastIndex rules of C20 decide)
+                    assumed = pos[name] | {x.arg for x in m.node.args.args if x.annotation is not None and norm(x.annotation) == "int"}
+                    if _nonneg(a, m, assumed, c):
+                        rep.ok(rid, key)
+                    else:
+                        rep.bad(rid, key, f"{m.qual} passes `{norm(a)[:50]}` as the subject position `{cps[i]}` of {c.func.attr}, and it is not provably >= 0 (no clamp, no test against 0, no range that stops at 0): the matcher's instructions only test positions against the end of the subject, and the host reads a negative index from the end, so text that is not there is matched", f"{m.module.rel}:{c.lineno}")
+    if n < 4:
+        raise AnalysisError(f"{rid}: only {n} position arguments found in the regex matcher")
